@@ -263,6 +263,7 @@ func registerC01() {
 				c01Sources[id] = []byte(obs[0].Out)
 				cs = append(cs, c)
 			}
+			cs = append(cs, sizeSweepCases(cx)...)
 			return cs
 		},
 		Oracle: func(cx *CheckCtx, runs []*CaseRun) []Finding {
